@@ -584,6 +584,22 @@ func c10Deletions(c *Ctx, m *shimModel) {
 	}
 	c.Floor("R6.deletions", n, 2, "deletion / replacement sites of the table")
 	if remove != nil {
+		// the removal helper drops the removed key's own entry and no other: every delete from the table on its tree is
+		// keyed by hash(key.Marshal()) of its parameter (a still-valid certificate over that key is not the key's entry)
+		for _, a := range w.FieldAccesses(m.Server, m.fCerts) {
+			if a.Kind != "mapdelete" || (a.Home() != remove && !w.inTree(remove, a.Home())) {
+				continue
+			}
+			call, isCall := a.Instr.(ssa.CallInstruction)
+			okKey := false
+			if isCall && len(call.Common().Args) == 2 {
+				w.WithAccess(remove, a, func(*Facts) {
+					ke := w.ExprIn(remove, call.Common().Args[1])
+					okKey = strings.HasSuffix(ke, "Marshal>(p1))") && strings.HasPrefix(ke, "call<")
+				})
+			}
+			c.Check(okKey, "R6.deletions", "removal helper|deletes only the removed key's entry", w.Pos(a.Instr.Pos()), "delete(table, hash(key.Marshal()))", "the removal helper deletes an in-memory entry that is not keyed by the removed key's own hash: a still-valid certificate is discarded (and stays discarded when the underlying agent then refuses the removal)")
+		}
 		// removing makes it disappear: every successful return of the removal helper was preceded by the deletion of
 		// the key's in-memory entry, or by the failed-lookup edge of a test that the entry is absent
 		through := map[ssa.Instruction]bool{}
